@@ -124,8 +124,10 @@ impl<R> Archive<R> {
         ) as usize;
 
         // Read the dictionary, chunk data offset and header hash
+        // The whole header, pre-header included, must end within what an offset can express.
         let header_rest_size = dictionary_size
             .checked_add(8 + 64)
+            .filter(|rest| rest.checked_add(header::PRE_HEADER_SIZE).is_some())
             .ok_or_else(|| ArchiveError::invalid_archive("invalid dictionary size"))?;
         header.extend_from_slice(
             &reader
